@@ -103,6 +103,18 @@ class PROP(Prop):
             for parts in [[fr], [fr[:2], fr[2:]], [fr[:3], fr[3:]], [fr[i:i + 1] for i in range(len(fr))]]:
                 cs.append(Case(cligen.cli_line("rtu", slave, [cligen.call_op(req, R=mb.rscript(parts))]),
                                {"k": "cli_clean", "want": "EX:%d" % code, "nparts": len(parts), "nframes": 1}))
+        # two calls on one client: the first fails on a noise burst longer than the decoder's retry budget (in ONE read, so bytes stay
+        # in the receive buffer when it gives up); the second one's reply -- clean, or behind admissible noise -- is delivered all the same
+        for burst in list(range(21, 64, 3 if tier == "quick" else 1)) + [100, 200]:
+            for nz in (0, 3, 16):
+                slave = rng.choice(rtugen.NOISE)          # (an id that cannot pass for a function code behind a noise byte, as in the cases below)
+                noise1 = bytes(rng.choice(rtugen.NOISE) for _ in range(burst))
+                req = ("RHR", rng.randrange(65536), 2)
+                rsp = ("RHR", [rng.randrange(65536), rng.randrange(65536)])
+                data = bytes(rng.choice(rtugen.NOISE) for _ in range(nz)) + mb.rtu_frame(slave, mb.spec_rsp_pdu(rsp))
+                parts = [data] if rng.random() < 0.5 else [data[i:i + 1] for i in range(len(data))]
+                ops = [cligen.call_op(("RHR", 1, 1), R=mb.rscript([noise1])), cligen.call_op(req, R=mb.rscript(parts))]
+                cs.append(Case(cligen.cli_line("rtu", slave, ops), {"k": "cli_clean", "want": "OK:" + mb.show_rsp(rsp), "nparts": len(parts), "nframes": 1, "last": True}))
         # noise then frame
         for nl in range(0, 41):
             for rep in range(6 if tier == "quick" else 40):
@@ -201,7 +213,7 @@ class PROP(Prop):
             tr = [t for t in r.split(",") if not (m.get("answered") and t.startswith("W:"))]
             return None if tr == m["exp"] else "clean stream: delivered %s, want %s" % (r[:90], ",".join(m["exp"])[:90])
         if k == "cli_clean":
-            res, _ = cligen.res_and_w(r)
+            res, _ = cligen.res_and_w(cligen.split_results(r)[-1])
             return None if res == m["want"] else "clean reply: %s, want %s" % (res[:60], m["want"][:60])
         if k == "srv_noise":
             if not m["adm"]:
